@@ -481,6 +481,75 @@ def checkC06 (c : Case) (t : Transcript) : Option String := Id.run do
       return some s!"final key flag is {t.key}, the specification says {if flag then "K" else "-"}"
   return none
 
+/-- C10: replay the poisoning specification: a `Poisonable` must report poisoned if a user panic
+unwound while an exclusive hold on it was live (own guard/closure, or guard/closure of a
+collection containing it) since the last `clear_poison`; it may report poisoned only if some
+panic happened during a hold on it; `clear_poison` restores Ok. Observations: `isp` statements,
+Ok/Err outcome of sessions, final flags. -/
+def checkC10 (c : Case) (t : Transcript) : Option String := Id.run do
+  let C : Ctx := { W := c.world, colls := c.colls }
+  let segs := segments t.evs
+  let mut may : List PoisonId := []
+  let mut must : List (PoisonId × String) := []
+  let mut i := 0
+  for s in c.prog do
+    let seg := segs.getD i []
+    i := i + 1
+    if seg.isEmpty then break
+    let out := segOutcome seg
+    match s with
+    | .ses ses =>
+      let S := C.shape ses.coll
+      let ps := poisonIds S
+      if out != mkOutNoKey && out != mkOutWouldBlock then
+        -- outcome of the acquisition: Err (12) needs a reason, Ok (10) must not hide a poisoned wrapper
+        if out == mkOutPoisoned && !(ps.any fun p => may.contains p) then
+          return some s!"statement {i}: poisoned result although no panic happened during a hold"
+        if out == mkOutOk then
+          match ps.find? fun p => must.any (·.1 == p) with
+          | some p => return some s!"statement {i}: Ok result although Poisonable {p} must be poisoned ({((must.find? (·.1 == p)).map (·.2)).getD ""})"
+          | none => pure ()
+        let userPanic := hasMark seg mkUserPanic
+        let fault := seg.any fun e => match e with | .raw _ _ .panic _ => true | _ => false
+        if userPanic || fault then
+          for p in ps do
+            if !may.contains p then may := p :: may
+        if userPanic && ses.mode == .excl then
+          let isScoped := ses.api == .scoped || ses.api == .scopedTry
+          let why := if isScoped && (isPoisonableTop S).isNone then "panic in the scoped closure of a collection containing it"
+            else if isScoped then "panic in its own scoped closure" else "panic while a guard was alive"
+          for p in ps do
+            if !(must.any (·.1 == p)) then must := (p, why) :: must
+    | .isPoisoned cc =>
+      match isPoisonableTop (C.shape cc) with
+      | some p =>
+        let observed := out == mkOutPoisoned
+        if observed && !may.contains p then
+          return some s!"statement {i}: Poisonable {p} reports poisoned although no panic happened during a hold on it"
+        if !observed then
+          match must.find? (·.1 == p) with
+          | some (_, why) => return some s!"statement {i}: Poisonable {p} is not poisoned after a {why}"
+          | none => pure ()
+      | none => pure ()
+    | .clearPoison cc =>
+      match isPoisonableTop (C.shape cc) with
+      | some p =>
+        may := may.filter (· != p)
+        must := must.filter (·.1 != p)
+      | none => pure ()
+    | _ => pure ()
+  if t.terminal == "done" then
+    let flags := t.poison.toList
+    for p in List.range flags.length do
+      let observed := flags.getD p '-' == 'P'
+      if observed && !may.contains p then
+        return some s!"at the end Poisonable {p} is poisoned although no panic happened during a hold on it"
+      if !observed then
+        match must.find? (·.1 == p) with
+        | some (_, why) => return some s!"at the end Poisonable {p} is not poisoned after a {why}"
+        | none => pure ()
+  return none
+
 def checkProp (prop : String) (c : Case) (t : Transcript) : Option String :=
   match prop with
   | "C03" | "C05" => checkHold c t
@@ -489,6 +558,7 @@ def checkProp (prop : String) (c : Case) (t : Transcript) : Option String :=
   | "C07" => checkC07 c t
   | "C08" => checkC08 c t
   | "C09" => checkC09 c t
+  | "C10" => checkC10 c t
   | "C11" => (checkC11 c t).orElse fun _ => checkHold c t
   | "C12" => checkC12 c t
   | "C13" => checkC13 c t
